@@ -15,7 +15,7 @@ META = {
         "dtype, nvdim, labels none, unit none, number of subregions, bc class, corner "
         "typing, mesh signature); non-trivial when the mesh has >= 2 cells along some axis."
     ),
-    "cases": {"quick": 480, "thorough": 16000},
+    "cases": {"quick": 480, "thorough": 128000},
     "workers": {"quick": 8, "thorough": 16},
     "timeout": {"quick": 600, "thorough": 5400},
     "deciding": [
